@@ -20,9 +20,10 @@ from .. import dag, symx, brownian as B, bshim
 from ..core import pmap, Inconclusive, ROOT, REPO
 from ..symtorch import Unsupported
 from ..symx import Engine
+from .. import symx as _sx
 from .c03 import HAVE_H, HAVE_A, _jsonable
 
-RECLIMIT = 400
+RECDEPTH = 160     # Python frames allowed below the harness during crash exploration (legitimate need: < 40)
 
 
 def cache_len(top):
@@ -43,7 +44,7 @@ def harness(cfg, nq, offgrid):
     def h(E):
         old = sys.getrecursionlimit()
         try:
-            sys.setrecursionlimit(RECLIMIT)
+            sys.setrecursionlimit(B.frame_depth() + RECDEPTH)
             bm, top, lo, hi = B.make(E, cfg)
             for k in range(nq):
                 a = E.input(f'q{k}a', lo.v + (hi.v - lo.v) * Fraction(1 + k, 7)); b = E.input(f'q{k}b', lo.v + (hi.v - lo.v) * Fraction(4 + k, 7))
@@ -58,7 +59,7 @@ def harness(cfg, nq, offgrid):
         except (Inconclusive, Unsupported):
             raise
         except RecursionError as e:
-            E.fail('recursion', 'exception', f"RecursionError under limit {RECLIMIT}")
+            E.fail('recursion', 'exception', f"RecursionError with {RECDEPTH} frames of head-room")
         except Exception as e:
             import traceback
             E.fail(f'crash-{type(e).__name__}', 'exception', f"{type(e).__name__}: {e} | {traceback.format_exc()[-500:]}")
@@ -68,7 +69,10 @@ def harness(cfg, nq, offgrid):
 
 
 def chain_harness(cfg, K, backward):
-    """solver-shaped history: K consecutive steps of symbolic length, then optionally backward; frame depth per call"""
+    """solver-shaped histories: a chain of K and a chain of 2K consecutive steps of symbolic length (then optionally
+    backward) on two objects; the maximal Python frame depth needed by a call must not depend on the chain length.
+    With warm=True the dependency-tree refinement is made to fire at the END of the chain (counter state reached after
+    100 - K queries), so that it runs over a tree that already contains the whole chain."""
     c = dict(B.DEFAULT); c.update(cfg)
     levy = c['levy']
     kw = {}
@@ -76,37 +80,42 @@ def chain_harness(cfg, K, backward):
 
     def h(E):
         try:
-            bm, top, lo, hi = B.make(E, cfg)
-            if c.get('warm'):
-                top._num_evaluations = -2
-            step = E.input('h', (hi.v - lo.v) / (K + 1))
-            E.assume((step > 0) & (lo + K * step <= hi))
-            depths = []
-            prof = {'max': 0}
+            span = Fraction(c['t1']) - Fraction(c['t0'])
+            step = E.input('h', span / (2 * K + 1))
+            E.assume((step * (2 * K) <= span) & (step * (2 * K + 2) >= span))
+            worst = {}
+            for n in (K, 2 * K):
+                bm, top, lo, hi = B.make(E, cfg)
+                if c.get('warm'):
+                    top._num_evaluations = -(n - 1)
+                prof = {'max': 0}
 
-            def tracer(frame, event, arg):
-                if event == 'call':
-                    d = B.frame_depth()
-                    if d > prof['max']:
-                        prof['max'] = d
-            seq = [(lo + k * step, lo + (k + 1) * step) for k in range(K)]
-            if backward:
-                seq = seq + seq[::-1]
-            for (a, b) in seq:
-                base = B.frame_depth()
-                prof['max'] = 0
-                sys.setprofile(tracer)
-                try:
-                    bm(a, b, **kw)
-                finally:
-                    sys.setprofile(None)
-                depths.append(prof['max'] - base)
-            E.depths = depths
-            E.samples_depth = list(depths)
-            # the depth needed by a call must not grow along the history
-            settled = depths[2:]
-            if settled and max(settled) > min(settled) + 12:
-                E.fail('stack-grows-with-history', 'concrete', f'frame depth per call along the chain: {depths}')
+                def tracer(frame, event, arg):
+                    if event == 'call' and frame.f_code.co_filename.endswith('brownian_interval.py'):
+                        d = 0
+                        f = frame
+                        while f is not None:
+                            d += 1
+                            f = f.f_back
+                        if d > prof['max']:
+                            prof['max'] = d
+                seq = [(lo + k * step, lo + (k + 1) * step) for k in range(n)]
+                if backward:
+                    seq = seq + seq[::-1]
+                depths = []
+                for (a, b) in seq:
+                    base = B.frame_depth()
+                    prof['max'] = 0
+                    sys.setprofile(tracer)
+                    try:
+                        bm(a, b, **kw)
+                    finally:
+                        sys.setprofile(None)
+                    depths.append(max(prof['max'] - base, 0))
+                worst[n] = max(depths)
+                E.samples_depth = {str(k): v for k, v in worst.items()}
+            if worst[2 * K] > worst[K] + 6:
+                E.fail('stack-grows-with-history', 'concrete', f'max frame depth per call: {worst[K]} for a chain of {K} steps, {worst[2 * K]} for {2 * K} steps')
         except (Inconclusive, Unsupported):
             raise
         except Exception as e:
@@ -120,9 +129,14 @@ def chain_harness(cfg, K, backward):
 def run_one(task):
     kind, cfg, a, b, max_paths, timeout_ms = task
     B.setup()
-    E = Engine(max_paths=max_paths, timeout_ms=timeout_ms, max_branches=3000)
+    nb = 1500 if kind == 'crash' else 40000
+    E = Engine(max_paths=max_paths, timeout_ms=timeout_ms, max_branches=nb)
     t = time.time()
-    fails = E.explore(harness(cfg, a, b) if kind == 'crash' else chain_harness(cfg, a, b))
+
+    def on_end(E_, aborted):
+        if aborted == 'branch bound':
+            E_.fail('non-termination', 'exception', f'still running after {nb} branch decisions (candidate: unbounded loop / recursion)')
+    fails = E.explore(harness(cfg, a, b) if kind == 'crash' else chain_harness(cfg, a, b), on_path_end=on_end)
     return dict(stats=E.stats, wall=time.time() - t, samples=E.path_log[:2], depths=getattr(E, 'samples_depth', None),
                 failures=[dict(what=f.what, kind=f.kind, inputs={k: str(v) for k, v in f.inputs.items()}, detail=f.detail[:500])
                           for f in fails[:20]], nfail=len(fails))
@@ -141,9 +155,9 @@ def tasks_for(tier):
         ('crash', dict(wrapper='tree', levy='none', size=(1,), tol=0.1, t1=Fraction(1, 2)), 1, True, mp, to),
         ('crash', dict(levy='none', size=(1,), cache_size=2, dt=0.25), 1, True, mp, to),
         ('crash', dict(levy='none', size=(1,), cache_size=0, dt=0.25), 1, True, mp, to),
-        ('chain', dict(levy='none', size=(1,), cache_size=1), 8, True, mp, to),
-        ('chain', dict(levy='space-time', size=(1,), cache_size=45, warm=True), 10, False, mp, to),
-        ('chain', dict(levy='none', size=(1,), cache_size=0, warm=True), 8, False, mp, to),
+        ('chain', dict(levy='none', size=(1,), cache_size=1), 6, True, mp, to),
+        ('chain', dict(levy='space-time', size=(1,), cache_size=2, warm=True), 6, False, mp, to),
+        ('chain', dict(levy='none', size=(1,), cache_size=0, warm=True), 5, True, mp, to),
     ]
     if not q:
         T += [
@@ -151,14 +165,49 @@ def tasks_for(tier):
             ('crash', dict(levy='foster', size=(2, 2), cache_size=1), 2, True, mp, to),
             ('crash', dict(levy='none', size=(1,), tol=0.01, halfway=True, t1=Fraction(1, 4)), 1, True, mp, to),
             ('crash', dict(levy='none', size=(1,), tol=0.1, halfway=True, t0=Fraction(-46, 100), t1=Fraction(-16, 100)), 1, True, mp, to),
-            ('chain', dict(levy='none', size=(1,), cache_size=2, warm=True), 16, True, mp, to),
-            ('chain', dict(levy='space-time', size=(1,), cache_size=None), 14, True, mp, to),
+            ('chain', dict(levy='none', size=(1,), cache_size=1, warm=True), 10, True, mp, to),
+            ('chain', dict(levy='space-time', size=(1,), cache_size=None), 10, True, mp, to),
         ]
     return T
 
 
+def lru_task(_):
+    """_LRUDict one-step invariant from an ARBITRARY valid state (constructed directly: any duplicate-free key list of
+    length <= max_size), arbitrary new key; the solver enumerates the bounded integer inputs"""
+    from torchsde._brownian.brownian_interval import _LRUDict
+    E = Engine(max_paths=200000, timeout_ms=30000, max_branches=400)
+
+    def h(E):
+        ms = E.concretize_int(E.input_int('max_size', 1, lo=1, hi=3), 1, 3)
+        n = E.concretize_int(E.input_int('n', 0, lo=0, hi=3), 0, 3)
+        E.assume(n <= ms)
+        ms, n = int(ms.v), int(n.v)
+        keys = []
+        for i in range(n):
+            k = int(E.concretize_int(E.input_int(f'k{i}', i, lo=0, hi=3), 0, 3).v)
+            if k in keys:
+                raise symx.PathAbort('duplicate key: not a valid state')
+            keys.append(k)
+        new = int(E.concretize_int(E.input_int('new', 0, lo=0, hi=4), 0, 4).v)
+        d = _LRUDict(ms)
+        for k in keys:
+            dict.__setitem__(d, k, ('v', k))
+        d._keys = list(keys)
+        d[new] = 'new'
+        exp = [k for k in keys if k != new]
+        if new not in keys and len(keys) >= ms:
+            exp = exp[1:]
+        exp = exp + [new]
+        if len(d) > ms:
+            E.fail('lru-size', 'concrete', f'{len(d)} entries with max_size {ms} (state {keys}, new key {new})')
+        if list(d._keys) != exp or sorted(d.keys()) != sorted(exp) or d[new] != 'new':
+            E.fail('lru-order', 'concrete', f'state {keys} + key {new}: keys {d._keys}, stored {sorted(d.keys())}, expected {exp}')
+    fails = E.explore(h)
+    return dict(stats=E.stats, failures=[dict(what=f.what, detail=f.detail) for f in fails[:5]], nfail=len(fails))
+
+
 def crosshair_lru(ctx):
-    """E3: _LRUDict one-step invariant from an arbitrary valid state, decided by CrossHair (z3) over all paths"""
+    """E3: _EmptyDict stores nothing and is_strictly_increasing, decided by CrossHair (z3) over all paths"""
     src = os.path.join(ROOT, 'vt', 'crosshair_units', 'lru.py')
     t = time.time()
     env = dict(os.environ); env['PYTHONPATH'] = f"{REPO}:{ROOT}"
@@ -173,12 +222,12 @@ def crosshair_lru(ctx):
     ctx.queries += max(confirmed, 1)
     if 'error' in out.lower() and 'false when calling' in out.lower() or 'counterexample' in out.lower():
         line = [l for l in out.splitlines() if 'when calling' in l or 'counterexample' in l.lower()][:1]
-        ctx.violation('_LRUDict|one-step-invariant', f'CrossHair counterexample: {line}', replay=dict(lru=True, text=out[-800:]))
+        ctx.violation('_EmptyDict|crosshair', f'CrossHair counterexample: {line}', replay=dict(lru=True, text=out[-800:]))
     elif 'Not confirmed' in out or 'Unable to meet precondition' in out or confirmed == 0:
-        ctx.inconc('crosshair _LRUDict', out[-400:])
+        ctx.inconc('crosshair units', out[-400:])
     else:
         ctx.paths += confirmed
-        ctx.ok(f'_LRUDict one-step invariant (CrossHair: {confirmed} conditions confirmed over all paths)')
+        ctx.ok(f'_EmptyDict / is_strictly_increasing contracts (CrossHair: {confirmed} conditions confirmed over all paths)')
 
 
 def run(ctx):
@@ -187,9 +236,9 @@ def run(ctx):
            '_Interval._increment_and_space_time_levy_area', 'BrownianTree.__call__')
     ctx.stubs += bshim.STUBS
     ctx.bounds = {'queries per history (crash exploration)': '<=2 arbitrary symbolic real times (off-grid, sub-tolerance, zero-length included)',
-                  'chain length K': '8-10 (quick) / 16', 'recursion limit during exploration': RECLIMIT,
+                  'chain lengths compared': 'K vs 2K, K = 5-6 (quick) / 10, symbolic step length in [span/(2K+2), span/2K]', 'stack head-room during crash exploration': f'{RECDEPTH} Python frames',
                   'configs': 'cache_size 0/1/2/45/None, dt hint or not, tol 0/0.1/0.01, halfway_tree, all Levy modes'}
-    ctx.assumptions += ['documented validity predicate of the constructor only', 'a RecursionError at limit %d is replayed with the default limit before being reported' % RECLIMIT]
+    ctx.assumptions += ['documented validity predicate of the constructor only', 'a RecursionError within %d frames of head-room, or a path cut at the branch bound, is replayed on floats with the default recursion limit and a time limit before being reported' % RECDEPTH]
     ctx.outside += ['histories of tens of thousands of queries as such: decided through history-independence of the frame depth on small chains; long runs are replay material']
     tasks = tasks_for(ctx.tier)
     for t, (st, res) in zip(tasks, pmap(run_one, tasks)):
@@ -208,6 +257,16 @@ def run(ctx):
             seen.add(f['what'])
             ctx.violation(f"{t[0]}|{B.cfg_name(t[1])}|{f['what']}", f"{f['what']}: {f['detail'][:300]}",
                           replay=dict(kind=t[0], cfg=_jsonable(t[1]), a=t[2], b=t[3], inputs=f['inputs'], what=f['what']))
+    st_, res = pmap(lru_task, [0])[0]
+    if st_ != 'ok':
+        ctx.inconc('_LRUDict one-step invariant', str(res)[:400])
+    else:
+        ctx.paths += res['stats']['paths']; ctx.queries += res['stats']['queries']; ctx.solver_s += res['stats']['solver_s']
+        if res['nfail']:
+            f = res['failures'][0]
+            ctx.violation(f"_LRUDict|{f['what']}", f['detail'], replay=dict(lru=True))
+        else:
+            ctx.ok(f"_LRUDict one-step invariant from every valid state (max_size<=3, keys in 0..3): {res['stats']['paths']} states")
     crosshair_lru(ctx)
     ctx.twin('twin: ta > tb must raise (the documented RuntimeError is reachable)', twin())
 
@@ -247,6 +306,12 @@ def replay(data):
     if levy in HAVE_A and r['kind'] == 'crash': kw['return_A'] = True
     t0, t1 = float(Fraction(cfg['t0'])), float(Fraction(cfg['t1']))
     bad = []
+    import signal
+
+    def _alarm(*a):
+        raise TimeoutError('call did not return within 60 s')
+    signal.signal(signal.SIGALRM, _alarm)
+    signal.alarm(60)
     try:
         if cfg['wrapper'] == 'tree':
             bm = torchsde.BrownianTree(t0=t0, w0=torch.zeros(size, dtype=torch.float64), t1=t1, entropy=cfg['entropy'], tol=cfg['tol'] or 0.1)
@@ -262,29 +327,41 @@ def replay(data):
                 if cs is not None and cache_len(top) > cs:
                     bad.append('cache bound exceeded')
         else:
-            if cfg.get('warm'):
-                top._num_evaluations = -2
             K = r['a']; step = inp['h']
-            # long version of the same chain: the real question is whether the stack grows with the history
-            depths = []
-            prof = {'max': 0}
+            worst = {}
+            for n in (K, 2 * K, 40 * K):
+                if cfg['wrapper'] == 'tree':
+                    bm2 = torchsde.BrownianTree(t0=t0, w0=torch.zeros(size, dtype=torch.float64), t1=t1, entropy=cfg['entropy'], tol=cfg['tol'] or 0.1); top2 = bm2._interval
+                else:
+                    bm2 = torchsde.BrownianInterval(t0=t0, t1=t1, size=size, dtype=torch.float64, entropy=cfg['entropy'], levy_area_approximation=levy,
+                                                    cache_size=cfg['cache_size'], dt=cfg['dt'], tol=cfg['tol'], halfway_tree=cfg['halfway']); top2 = bm2
+                st = step if n <= 2 * K else (t1 - t0) / (n + 1)
+                if cfg.get('warm'):
+                    top2._num_evaluations = -(n - 1)
+                prof = {'max': 0}
 
-            def tracer(frame, event, arg):
-                if event == 'call':
-                    d = B.frame_depth()
-                    prof['max'] = max(prof['max'], d)
-            n = max(K, int(min(400, (t1 - t0) / step)))
-            for k in range(n):
-                base = B.frame_depth(); prof['max'] = 0
+                def tracer(frame, event, arg):
+                    if event == 'call' and frame.f_code.co_filename.endswith('brownian_interval.py'):
+                        d = 0; f = frame
+                        while f is not None:
+                            d += 1; f = f.f_back
+                        prof['max'] = max(prof['max'], d)
+                seq = [(t0 + k * st, t0 + (k + 1) * st) for k in range(n)]
+                if r['b']:
+                    seq = seq + seq[::-1]
+                base = B.frame_depth()
                 sys.setprofile(tracer)
                 try:
-                    bm(t0 + k * step, min(t0 + (k + 1) * step, t1), **kw)
+                    for (a_, b_) in seq:
+                        bm2(a_, b_, **kw)
                 finally:
                     sys.setprofile(None)
-                depths.append(prof['max'] - base)
-            print('frame depth per call:', depths[:12], '...', depths[-5:])
-            if max(depths[2:]) > min(depths[2:]) + 12:
-                bad.append(f'frame depth grows with the history: min {min(depths[2:])} max {max(depths[2:])}')
+                worst[n] = prof['max'] - base
+            print('max frame depth per chain length:', worst)
+            if worst[2 * K] > worst[K] + 6 or worst[40 * K] > worst[K] + 12:
+                bad.append(f'frame depth grows with the history: {worst}')
+    except TimeoutError as e:
+        bad.append(str(e))
     except RecursionError as e:
         bad.append('RecursionError with the default recursion limit')
     except RuntimeError as e:
@@ -292,5 +369,6 @@ def replay(data):
             bad.append(f'crash RuntimeError: {e}')
     except Exception as e:
         bad.append(f'crash {type(e).__name__}: {e}')
+    signal.alarm(0)
     print('replay C07:', bad or 'all calls returned normally')
     return bool(bad)
